@@ -203,6 +203,42 @@ def add_special_shapes(root: File, rng) -> None:
     root.add(m)
     if rng.random() < 0.5:
         gen.add_same_name_shapes(root, rng, ext_ok=root_has_ext(root))
+    if root_has_ext(root):
+        add_coincidence_shapes(root, rng)
+
+
+def add_coincidence_shapes(root: File, rng) -> None:
+    """Extensible fields whose WIRE size (16-bit prefix included) happens to equal 8 x sizeof of their C representation although the
+    layouts differ: the prefix cancels exactly 16 bits of slack (narrow widths in wider storage, struct padding).  Anything that
+    decides "wire image == memory image" by comparing sizes takes the raw-copy path here."""
+    from vlib.model import Field
+    tag = "".join(rng.choice("abcdefghijklmnopqrstuvwxyz") for _ in range(4)).capitalize()
+    host = Message("Coin" + tag)
+    n = 0
+
+    def add(t):
+        nonlocal n
+        n += 1
+        host.add(Field(f"c{'abcdefghijklmnopqrstuvwxyz'[n]}", t, n))
+
+    if rng.random() < 0.5:
+        add(Base("uint", rng.choice([3, 8])))
+    shapes = rng.sample(["pos", "hdr", "nib", "a12", "a4", "a6", "a24"], rng.randint(2, 4))
+    for sh in shapes:
+        if sh in ("pos", "hdr", "nib"):
+            sub = Message(f"{sh.capitalize()}{tag}", ext=True)
+            widths = {"pos": [("int", 24), ("int", 24)], "hdr": [("uint", 32), ("uint", 16)], "nib": [("uint", 4)] * 4}[sh]
+            for k, (kind, w) in enumerate(widths):
+                sub.add(Field("pqrs"[k] + "_v", Base(kind, w), k + 1))
+            root.add(sub)
+            add(Ref(sub))
+            if rng.random() < 0.5:
+                add(Arr(Ref(sub), 2))
+        else:
+            w, cap = {"a12": (12, 4), "a4": (4, 4), "a6": (6, 8), "a24": (24, 2)}[sh]
+            add(Arr(Base(rng.choice(["uint", "int"]), w), cap, ext=True))
+        add(Base("uint", rng.choice([1, 5, 8])))
+    root.add(host)
 
 
 def root_has_ext(root: File) -> bool:
